@@ -37,7 +37,11 @@ CHECKS.append(chk("C07", "exploration",
     "Function level: generated triples of key values (boundary-seeded, ties by construction) must make the key comparison reflexive, antisymmetric, transitive and equal in sign to SQLite's own comparison (native SQLite and an independent harness comparator, cross-checked against each other); keys that compare equal must get the same tree level for every rows-per-object setting. SQL level: tables filled with keys that tie across representations are compared statement by statement with a native WITHOUT ROWID table (outcome classes, ORDER BY, point and range lookups, after reconnect).",
     "property-based testing (rapid): algebraic laws + differential against native SQLite"))
 
-for pid in ["C03","C04","C05","C08","C09","C10","C11","C12","C13","C14","C15","C17","C18","C19","C20"]:
+CHECKS.append(chk("C08", "exploration",
+    "Round trip against SQLite: generated rows with boundary-seeded values of every storage class in key and non-key position (and omitted columns) are written by two writers and bound identically into a native table; (value bits, typeof) of every cell must be equal after commit, after re-open on a new connection, after merging another writer's version, after delete+vacuum and from a fresh read-only open. TEXT that is not valid UTF-8 may be refused (the table must stay usable) but never altered.",
+    "property-based round-trip / differential testing (rapid) against native SQLite"))
+
+for pid in ["C03","C04","C05","C09","C10","C11","C12","C13","C14","C15","C17","C18","C19","C20"]:
     NOT_YET[pid] = "check under construction in this session (designed in DESIGN.md section 5); not claimed until its quick tier runs clean on the unchanged tree"
 
 MANIFEST = {
